@@ -22,7 +22,7 @@ ASSUMPTIONS = [
     "default backend in this sandbox is z3 (no other backend importable)",
 ]
 REQUIRED = ["msolve.find_answer", "msolve.model_checked", "c01.sessions", "c01.wide_programs",
-            "c01.ast_crosscheck", "c01.fixed_programs", "c01.realistic_graph"]
+            "c01.ast_crosscheck", "c01.fixed_programs", "c01.realistic_graph", "c01.boundary_programs"]
 
 ALL_OPS = ["VAR", "BOOL_CONSTANT", "INT_CONSTANT", "NEG", "ADD/1", "ADD/2", "ADD/n", "SUB/2", "SUB/n", "EQ", "NE",
            "LE", "LT", "GE", "GT", "NOT", "AND/0", "AND/1", "AND/2", "AND/n", "OR/0", "OR/1", "OR/2", "OR/n",
@@ -35,8 +35,8 @@ def plan(tier):
 
 def sizes(tier):
     if tier == "quick":
-        return dict(programs=320, sessions=50, wide=12)
-    return dict(programs=8000, sessions=1200, wide=300)
+        return dict(programs=1200, sessions=150, wide=30)
+    return dict(programs=30000, sessions=4000, wide=700)
 
 
 def run_program(ctx, st, prog, tag):
@@ -155,6 +155,24 @@ def fixed_programs():
     return P
 
 
+def boundary_programs(rng, n):
+    """Each declared bound must be attainable and must not be exceedable, for all domain sizes."""
+    out = []
+    for _ in range(n):
+        size = rng.choice([1, 2, 3, 5, 6, 7, 9, 12, 31, 100, 1000, 10 ** 6, 2 ** 33])
+        lo = rng.choice([0, 1, -1, -size, -size // 2, -7, 1000, -(2 ** 31) - 5])
+        hi = lo + size - 1
+        k = rng.choice(["eq_hi", "eq_lo", "ge_hi", "le_lo", "gt_hi", "lt_lo", "sum_hi", "neg_lo"])
+        iv = ["iv", 0]
+        c = {"eq_hi": ["cmp", "eq", iv, ["il", hi]], "eq_lo": ["cmp", "eq", iv, ["il", lo]],
+             "ge_hi": ["cmp", "ge", iv, ["il", hi]], "le_lo": ["cmp", "le", iv, ["il", lo]],
+             "gt_hi": ["cmp", "gt", iv, ["il", hi]], "lt_lo": ["cmp", "lt", iv, ["il", lo]],
+             "sum_hi": ["cmp", "eq", ["add", iv, ["iv", 1]], ["il", hi + 1]],
+             "neg_lo": ["cmp", "eq", ["neg", iv], ["il", -lo]]}[k]
+        out.append({"decls": [["i", lo, hi], ["i", 0, 1], ["b"]], "constraints": [c]})
+    return out
+
+
 def run(ctx):
     z = sizes(ctx.tier)
     assert cspuz.config.default_backend == "z3", cspuz.config.default_backend
@@ -167,16 +185,23 @@ def run(ctx):
             ctx.count("c01.fixed_programs")
     for k in range(z["programs"]):
         p = progs.gen_program(rng)
-        run_program(ctx, st, p, "random")
+        with ctx.guard(60):
+            run_program(ctx, st, p, "random")
         if k < 2:
             ctx.sample(p)
+    for p in boundary_programs(rng, z["wide"] * 3):
+        with ctx.guard(120):
+            run_program(ctx, st, p, "boundary")
+        ctx.count("c01.boundary_programs")
     for k in range(z["wide"]):
         p = progs.gen_program(rng, max_vars=4, cap=1 << 62, wide=True, depth=rng.choice([1, 2, 3]))
-        run_program(ctx, st, p, "wide")
+        with ctx.guard(120):
+            run_program(ctx, st, p, "wide")
         ctx.count("c01.wide_programs")
     for k in range(z["sessions"]):
         sess = gen_session(rng)
-        run_session(ctx, st, sess)
+        with ctx.guard(120):
+            run_session(ctx, st, sess)
         if k < 1:
             ctx.sample(sess)
     # realistic programs: graph encodings and a puzzle solver on tiny boards (same Solver object)
